@@ -3,7 +3,49 @@ package gradtrack
 import "github.com/sahandsafizadeh/qeep/tensor/internal/tensor"
 
 func BackPropagate(t tensor.Tensor) (err error) {
-	return backward(startEdge(t))
+	root := gradContextOf(t)
+
+	if !root.tracked {
+		return nil
+	}
+
+	// number of edges arriving at each tracked context of the graph; a
+	// context propagates to its own edges only after all of them delivered,
+	// so every edge is applied exactly once on the total upstream gradient
+	pending := pendingEdges(root)
+
+	start := startEdge(t)
+
+	err = deliver(root, start)
+	if err != nil {
+		return
+	}
+
+	ready := []*GradContext{root}
+
+	for len(ready) > 0 {
+		gctx := ready[len(ready)-1]
+		ready = ready[:len(ready)-1]
+
+		for _, e := range gctx.backEdges {
+			target := gradContextOf(e.target)
+			if !target.tracked {
+				continue
+			}
+
+			err = deliver(target, e)
+			if err != nil {
+				return
+			}
+
+			pending[target]--
+			if pending[target] == 0 {
+				ready = append(ready, target)
+			}
+		}
+	}
+
+	return nil
 }
 
 func startEdge(t tensor.Tensor) (edge *backwardEdge) {
@@ -16,33 +58,42 @@ func startEdge(t tensor.Tensor) (edge *backwardEdge) {
 	}
 }
 
-func backward(edge *backwardEdge) (err error) {
-	gctx := gradContextOf(edge.target)
+func pendingEdges(root *GradContext) (pending map[*GradContext]int) {
+	pending = make(map[*GradContext]int)
+	visited := map[*GradContext]bool{root: true}
+	stack := []*GradContext{root}
 
-	if !gctx.tracked {
-		return nil
-	} else {
-		gctx.bpdirty = true
+	for len(stack) > 0 {
+		gctx := stack[len(stack)-1]
+		stack = stack[:len(stack)-1]
+
+		for _, e := range gctx.backEdges {
+			target := gradContextOf(e.target)
+			if !target.tracked {
+				continue
+			}
+
+			pending[target]++
+
+			if !visited[target] {
+				visited[target] = true
+				stack = append(stack, target)
+			}
+		}
 	}
+
+	return pending
+}
+
+func deliver(gctx *GradContext, edge *backwardEdge) (err error) {
+	gctx.bpdirty = true
 
 	grad, err := edge.gradFn()
 	if err != nil {
 		return
 	}
 
-	err = accumulateGrad(gctx, grad)
-	if err != nil {
-		return
-	}
-
-	for _, e := range gctx.backEdges {
-		err = backward(e)
-		if err != nil {
-			return
-		}
-	}
-
-	return nil
+	return accumulateGrad(gctx, grad)
 }
 
 func accumulateGrad(gctx *GradContext, grad tensor.Tensor) (err error) {
